@@ -51,13 +51,39 @@ class _TappedKBKDFHMAC:
         return self._real.verify(key_material, expected_key)
 
 
+from cryptography.hazmat.primitives.kdf import concatkdf as _concatkdf
+
+_REAL_CONCATKDF = _concatkdf.ConcatKDFHash
+CONCAT_LOG: list = []
+
+
+class _TappedConcatKDFHash:
+    """Python stand-in for the native ConcatKDFHash: logs (hash, length, otherinfo, Z, out)."""
+
+    def __init__(self, algorithm: t.Any, length: int, otherinfo: t.Optional[bytes], *a: t.Any, **kw: t.Any) -> None:
+        self._args = (algorithm.name.upper().replace("-", ""), length, otherinfo)
+        self._real = _REAL_CONCATKDF(algorithm, length, otherinfo, *a, **kw)
+
+    def derive(self, key_material: bytes) -> bytes:
+        out = self._real.derive(key_material)
+        if len(CONCAT_LOG) < 100000:
+            CONCAT_LOG.append({"hash": self._args[0], "length": self._args[1], "otherinfo": self._args[2], "z": bytes(key_material), "out": out})
+        return out
+
+    def verify(self, key_material: bytes, expected_key: bytes) -> None:
+        return self._real.verify(key_material, expected_key)
+
+
 def install() -> None:
     """Must run before dpapi_ng is imported (harness.taps is imported first by every driver);
     also repairs the binding if dpapi_ng._crypto was imported earlier."""
     _kbkdf.KBKDFHMAC = _TappedKBKDFHMAC  # type: ignore
+    _concatkdf.ConcatKDFHash = _TappedConcatKDFHash  # type: ignore
     m = sys.modules.get("dpapi_ng._crypto")
     if m is not None and getattr(m, "KBKDFHMAC", None) is _REAL_KBKDFHMAC:
         m.KBKDFHMAC = _TappedKBKDFHMAC  # type: ignore
+    if m is not None and getattr(m, "ConcatKDFHash", None) is _REAL_CONCATKDF:
+        m.ConcatKDFHash = _TappedConcatKDFHash  # type: ignore
 
 
 install()
